@@ -414,6 +414,8 @@ def unbind(t, dim=0):
 
 
 def index_select(t, dim, index):
+    if not isinstance(t, DataT):
+        raise PyExc('TypeError', 'index_select(): argument input must be Tensor, not %s' % type(t).__name__)
     d = _norm_dim(dim, t.ndim)
     arr = index.as_index() if hasattr(index, 'as_index') else np.asarray(index)
     idx = [slice(None)] * t.ndim
@@ -673,6 +675,9 @@ def _check_conv_input(x, w, what):
                     % (what, list(x.shape)))
     if w.arr.ndim != 4:
         raise PyExc('RuntimeError', 'weight should have 4 dimensions, got %s' % list(w.shape))
+    if 0 in w.arr.shape:
+        raise PyExc('RuntimeError', 'weight of size %s: a zero-sized kernel / channel dimension is not supported'
+                    % list(w.arr.shape))
     if [k for k, _ in x.dims] != ['E', 'E', 'S', 'S']:
         r = x.retag_units([('E', x.dims[0][1]), ('E', x.dims[1][1]), ('S', x.dims[2][1]), ('S', x.dims[3][1])])
         if r is not None:
@@ -694,8 +699,16 @@ def conv2d(x, w, bias=None, stride=1, padding=0, dilation=1, groups=1):
         raise AnalysisError('unsupported', 'string padding')
     ph, pw = _pair(padding, 'padding')
     dh, dw = _pair(dilation, 'dilation')
+    if sh <= 0 or sw <= 0:
+        raise PyExc('RuntimeError', 'non-positive stride is not supported')
+    if dh <= 0 or dw <= 0:
+        raise PyExc('RuntimeError', 'dilation should be greater than zero')
+    if ph < 0 or pw < 0:
+        raise PyExc('RuntimeError', 'negative padding is not supported')
     N, C = x.dims[0][1], x.dims[1][1]
     O, Ipg, kh, kw = w.arr.shape
+    if not isinstance(groups, (int, np.integer)) or groups <= 0:
+        raise PyExc('RuntimeError', 'non-positive groups is not supported')
     if C % groups or O % groups:
         raise PyExc('RuntimeError', 'channels not divisible by groups')
     if C // groups != Ipg:
@@ -792,6 +805,14 @@ def conv_transpose2d(x, w, bias=None, stride=1, padding=0, output_padding=0, gro
     ph, pw = _pair(padding, 'padding')
     oph, opw = _pair(output_padding, 'output_padding')
     dh, dw = _pair(dilation, 'dilation')
+    if sh <= 0 or sw <= 0:
+        raise PyExc('RuntimeError', 'non-positive stride is not supported')
+    if dh <= 0 or dw <= 0:
+        raise PyExc('RuntimeError', 'dilation should be greater than zero')
+    if ph < 0 or pw < 0 or oph < 0 or opw < 0:
+        raise PyExc('RuntimeError', 'negative padding is not supported')
+    if oph >= max(sh, dh) or opw >= max(sw, dw):
+        raise PyExc('RuntimeError', 'output padding must be smaller than either stride or dilation')
     N, C = x.dims[0][1], x.dims[1][1]
     Cin, Opg, kh, kw = w.arr.shape
     if Cin != C:
@@ -868,6 +889,8 @@ def conv_transpose2d(x, w, bias=None, stride=1, padding=0, output_padding=0, gro
 def pad(x, padding, mode='constant', value=None):
     x = as_nchw(x)
     if not isinstance(x, DataT):
+        raise PyExc('TypeError', 'pad(): argument input must be Tensor, not %s' % type(x).__name__)
+    if not isinstance(x, DataT):
         raise AnalysisError('unsupported', 'F.pad of %s' % type(x).__name__)
     x.check_fresh_view()
     padding = [int(p) for p in padding]
@@ -940,6 +963,8 @@ def gather_axis(x, d, idxs):
 
 def avg_pool2d(x, kernel_size, stride=None, padding=0, ceil_mode=False, count_include_pad=True):
     x = as_nchw(x)
+    if not isinstance(x, DataT):
+        raise PyExc('TypeError', 'avg_pool2d(): argument input must be Tensor, not %s' % type(x).__name__)
     if getattr(x, 'nl', False):
         from . import nonlin
         x = nonlin.rebase(x)
@@ -979,6 +1004,8 @@ def avg_pool2d(x, kernel_size, stride=None, padding=0, ceil_mode=False, count_in
 
 def interpolate(x, size=None, scale_factor=None, mode='nearest', align_corners=None):
     x = as_nchw(x)
+    if not isinstance(x, DataT):
+        raise PyExc('TypeError', 'interpolate(): argument input must be Tensor, not %s' % type(x).__name__)
     if getattr(x, 'nl', False):
         from . import nonlin
         x = nonlin.rebase(x)
